@@ -9,9 +9,9 @@ CL = {1: "pause decision after the hand is not 'break level or fewer players wit
 
 def run(res, replay=None):
     q = res.tier == "quick"
-    plans = [("gen", None, NH[res.tier], 10 if q else 100, None), ("interval", "interval", 40 if q else 800, 10 if q else 100, None),
+    plans = [("gen", None, NH[res.tier], 10 if q else 100, None), ("interval", "interval", 40 if q else 300, 10 if q else 100, None),
              # heads-up, one of the two busts in the first hand while newcomers sat down during it (on any free seat)
-             ("bust", "bust_arrival", 30 if q else 600, 10 if q else 100, None)]
+             ("bust", "bust_arrival", 30 if q else 200, 10 if q else 100, None)]
     return run_life(res, 4, CL, replay=replay, plans=plans)
 
 
